@@ -23,7 +23,7 @@ EXHAUSTIVE = {
     "quick": "all shapes HxW <= 4x4 (incl. 1xN, Nx1) x flip x {Array2D, Kernel2D, Mask2D} x {file, hdu} route; all 1-D lengths 1..6 x flip "
              "x {Array1D, Mask1D} x {file, hdu}; all boolean masks with H*W <= 6 (Mask2D and masked Array2D through the hdu route, every third also through a file); all file-system "
              "scenarios {bare name, 1 dir, 2 dirs} x {directory absent, partly present, present} x {target absent, present} x overwrite "
-             "x flip x {relative, absolute path}; hdu index in [-3..2] on 1- and 2-HDU files",
+             "x flip x {relative, absolute path}; hdu index in [-3..2] on 1- and 2-HDU files and on assembled 1-, 2-, 3-HDU files (2-D and 1-D)",
     "thorough": "as quick with shapes <= 6x6, masks with H*W <= 9 (sampled above 2^9), 1-D lengths 1..9, plus 10x the random budget",
 }
 TRUSTED = ["astropy FITS codec = identity on (float64 data, PIXSCALE* header cards); HDUList indexing = Python list indexing "
@@ -264,6 +264,19 @@ def run_case(inp):
         out = [r]
         cobjs = clist([ctup([carr(v), cbarr(m), csc2(s)]) for v, m, s in objs])
         coq = f"KMulti2 {cbool(flip)} {cobjs} {cz(inp['k'])} {cfres(r, cobs2)}"
+    elif op == "multi1":
+        from astropy.io import fits
+        objs = inp["objs"]; cells = 4
+        with sandbox(flip) as root:
+            hs = []
+            for i, (v, m, s) in enumerate(objs):
+                h = mk_obj1(aa, v, m, s).hdu_for_output
+                hs.append(h if i == 0 else fits.ImageHDU(h.data, header=h.header))
+            fits.HDUList(hs).writeto("multi.fits")
+            r = okmap(call(aa.Array1D.from_fits, file_path="multi.fits", pixel_scales=1.0, hdu=inp["k"]), obs_arr1)
+        out = [r]
+        cobjs = clist([ctup([crow(v), cbrow(m), cq(fr(s))]) for v, m, s in objs])
+        coq = f"KMulti1 {cbool(flip)} {cobjs} {cz(inp['k'])} {cfres(r, cobs1)}"
     elif op == "file1":
         vals, mask, sc = inp["vals"], inp["mask"], inp["sc"]; cells = len(vals)
         with sandbox(flip, inp["fs0"]) as root:
@@ -456,8 +469,11 @@ def gen_inputs(tier, rng):
             yield {"op": "filem1", "flip": flip, "mask": [True, False], "sc": 1.0, "fs0": two1, "p": [10], "abs": False, "ow": k % 2 == 1, "k": k}
             yield {"op": "util1", "flip": flip, "fs0": two1, "arr": content1(3), "p": [10], "abs": False, "ow": flip, "hd": [], "k": k}
             objs = [[content2(2, 3), mask, [1.0, 1.0]], [content2(3, 1), falses(3, 1), [0.5, 0.5]], [content2(1, 4), [[True, False, False, True]], [2.0, 2.0]]]
+            objs1 = [[content1(4), [False, True, False, False], 0.5], [content1(2), [False, False], 2.0], [content1(3), [True, False, True], 0.25]]
             for n in (1, 2, 3):
-                if -n - 1 <= k <= n: yield {"op": "multi2", "flip": flip, "objs": objs[:n], "k": k}
+                if -n - 1 <= k <= n:
+                    yield {"op": "multi2", "flip": flip, "objs": objs[:n], "k": k}
+                    yield {"op": "multi1", "flip": flip, "objs": objs1[:n], "k": k}
     # 5. anisotropic pixel scales (PIXSCALEY / PIXSCALEX cards)
     for flip in (False, True):
         for sc in ([1.0, 2.0], [0.5, 0.25]):
@@ -468,12 +484,13 @@ def gen_inputs(tier, rng):
             yield {"op": "filem2", "flip": flip, "mask": mask, "sc": sc, "fs0": E, "p": [10], "abs": False, "ow": False, "k": 0, "rs": None, "inv": False}
     # 6. Imaging
     psfs = [[[1.0, 2.0, 1.0], [0.0, 0.0, 0.0], [0.0, 3.0, 1.0]], [[0.5, 0.25, 0.25]], [[4.0], [-1.0], [1.0]], [[1.0]]]
-    for j in range(40 if big else 12):
+    for j in range(60 if big else 24):
         h, w = rng.randint(1, 5), rng.randint(1, 5)
         mask = rand_mask(h, w, rng) if j % 2 else falses(h, w)
         if all(all(r) for r in mask): mask[0][0] = False
         noise = [[float(rng.choice([0.5, 1.0, 2.0, 4.0, 0.25])) for _ in range(w)] for _ in range(h)]
-        fs0 = E if j % 3 else {"dirs": [[1]], "files": [[[1, 11], [old_hdu(2, 1)]], [[12], [old_hdu(2, 2)]]]}   # psf / noise-map targets exist
+        old_psf = {"data": [[0.5, 0.25, 0.25]], "hdr": [["PIXSCALE", 8.0]]}        # sums to one: its renormalisation is exact
+        fs0 = E if j % 3 else {"dirs": [[1]], "files": [[[1, 11], [old_psf]], [[12], [old_hdu(2, 2)]]]}   # psf / noise-map targets exist
         yield {"op": "imaging", "flip": j % 4 < 2, "mask": mask, "data": content2(h, w, rng), "noise": noise, "psf": psfs[j % 4], "sc": [0.5, 0.25] if j % 5 == 0 else [0.5, 0.5],
                "fs0": fs0, "pd": [1, 10], "pp": [1, 11] if j % 3 == 0 else [2, 11], "pn": [12], "abs": j % 2 == 0, "ow": j % 6 == 0, "chk": j % 2 == 0}
     # 7. random larger cases with special magnitudes
